@@ -21,10 +21,10 @@ for p in props:
     })
 man = {
     "version": 1,
-    "setup_cmd": "cd /verif && python3 tools/extract.py && (cd lean && lake build) && (cd harness && CARGO_NET_OFFLINE=true cargo build --release --offline)",
+    "setup_cmd": "cd /verif && python3 tools/extract.py && (cd lean && lake build) && (cd harness && CARGO_NET_OFFLINE=true cargo build --release --offline) && (cd harness-loom && CARGO_NET_OFFLINE=true cargo build --release --offline)",
     "hooks": {
         "guard": "verif-hooks",
-        "enable": "cargo feature: the harness depends on lean_string with features = [\"verif-hooks\"] (path dependency on /repo)",
+        "enable": "cargo feature: the harness depends on lean_string with features = [\"verif-hooks\"] (path dependency on /repo); harness-loom additionally builds it with RUSTFLAGS=--cfg loom and the crate's loom feature",
         "baseline_off_cmd": "cd /repo && cargo test --workspace --no-fail-fast --offline",
         "source_commits": notes["_hooks"]["source_commits"],
         "add_only": True,
